@@ -22,11 +22,19 @@ pub struct RlteCoordinator;
 
 impl RlteCoordinator {
     /// Determines if RLTE planning should be performed for this command.
+    ///
+    /// The rank ladders describe all rows of a zone, so the zones and the cutoff derived
+    /// from them are only meaningful for an unfiltered query: with FOR / WHERE / SINCE the
+    /// k best rows overall are not the k best matching rows, and matching rows beyond the
+    /// cutoff (on disk or in memory) were dropped. Filtered queries take the full scan.
     pub fn should_plan(cmd: &Command) -> bool {
         matches!(
             cmd,
             Command::Query {
                 order_by: Some(_),
+                context_id: None,
+                where_clause: None,
+                since: None,
                 ..
             }
         )
